@@ -124,3 +124,10 @@ Proof.
   destruct (reopen_le_free m2 h psm credits (c_scid c) R2 Hr Free Hid) as (scid & Ho & Hs & _).
   eauto.
 Qed.
+
+(* (D17g) a successful response whose MTU / MPS are outside the limits is handled exactly as
+   the corresponding refusal, for any state *)
+Theorem bad_params_is_refusal m h id dcid credits dcids :
+  step m (ERecv h (FLeRsp id dcid credits R_OK false)) = step m (ERecv h (FLeRsp id dcid credits R_LE_BAD_PARAMS true)) /\
+  step m (ERecv h (FEnhRsp id credits R_OK dcids false)) = step m (ERecv h (FEnhRsp id credits R_ENH_BAD_PARAMS dcids true)).
+Proof. split; reflexivity. Qed.
